@@ -14,6 +14,7 @@ package c16
 
 import (
 	"bytes"
+	"encoding"
 	"encoding/json"
 	"fmt"
 	"io"
@@ -305,6 +306,32 @@ func evalFloat(kind string, u uint64, member bool) *pbt.Fail {
 				n := uint64(math.Round(1 / float64(x)))
 				if want := fmt.Sprintf("1/%d", n); x < 1 && x > 0 && string(tx) != want {
 					return pbt.Failf("text:meta.ExposureTime", "ExposureTime(1/%d).MarshalText() = %q, want %q", n, tx, want)
+				}
+			}
+			// the type offers a serialised form, so it has to read it back (the Exif struct carries an ExposureTime: without
+			// a decoder json.Unmarshal rejects what json.Marshal wrote)
+			dst := meta.ExposureTime(y)
+			dec, ok := any(&dst).(encoding.TextUnmarshaler)
+			if !ok {
+				return pbt.Failf("text:meta.ExposureTime:no-decoder", "meta.ExposureTime has MarshalText but no UnmarshalText: %q cannot be decoded", tx)
+			}
+			if err := dec.UnmarshalText(tx); err != nil {
+				return pbt.Failf("text:meta.ExposureTime", "UnmarshalText(%q), the text of %v, failed: %v", tx, x, err)
+			}
+			if member && math.Float32bits(float32(dst)) != math.Float32bits(x) {
+				return pbt.Failf("text:meta.ExposureTime", "UnmarshalText(MarshalText(%v) = %q) = %v", x, tx, float32(dst))
+			}
+			if tx2, err := dst.MarshalText(); err != nil || !bytes.Equal(tx, tx2) {
+				return pbt.Failf("text-idem:meta.ExposureTime", "%v marshals to %q, which decodes to %v, which marshals to %q (err %v)", x, tx, float32(dst), tx2, err)
+			}
+			type wrap struct{ V meta.ExposureTime }
+			if jb, err := json.Marshal(wrap{meta.ExposureTime(x)}); err == nil {
+				w := wrap{meta.ExposureTime(y)}
+				if err := json.Unmarshal(jb, &w); err != nil {
+					return pbt.Failf("json:meta.ExposureTime", "json.Unmarshal(%s), the output of json.Marshal for %v, failed: %v", jb, x, err)
+				}
+				if member && math.Float32bits(float32(w.V)) != math.Float32bits(x) {
+					return pbt.Failf("json:meta.ExposureTime", "json round trip of %v via %s gave %v", x, jb, float32(w.V))
 				}
 			}
 			return nil
@@ -628,7 +655,7 @@ func TestProp(t *testing.T) {
 		"non-trivial = documented member / representable number / non-empty decoder input; distinct by (type, value or text)")
 	rec.Assume("MessagePack inputs that declare a 32-bit length above 1 MiB are given to UnmarshalMsg only: the msgp library's streaming reader allocates the declared length up front (slow, but an error, not a panic)")
 	rec.Assume("PHash64/PHash256.Decode(src) and Encode(dst) have no error result and, like encoding/binary, require len >= 8 / 32; they are exercised only within that precondition")
-	rec.Assume("documented members: ImageType 0..23, MeteringMode {0..6,255}, ExposureMode 0..2, ExposureProgram 0..9, every ExposureBias encoding, floats that are k/100 (k <= 100000), exposure times 1/n (2 <= n <= 8000, the mechanical-shutter range; ExposureTime has no decoder, so only its printed form is checked, and beyond n = 11745 float32 storage makes the printed denominator ambiguous)")
+	rec.Assume("documented members: ImageType 0..23, MeteringMode {0..6,255}, ExposureMode 0..2, ExposureProgram 0..9, every ExposureBias encoding, floats that are k/100 (k <= 100000), exposure times 1/n (2 <= n <= 8000, the mechanical-shutter range; beyond n = 11745 float32 storage makes the printed denominator ambiguous) and k/100 s from 1 s up")
 	pbt.RegressDir(t, rec)
 	complete := true
 	var names []string
